@@ -25,7 +25,7 @@ ASSUMPTIONS = ["exception *types* are compared, not messages (they mention <lamb
 EXHAUSTIVE = {"quick": True, "thorough": True}
 FLOOR = {"quick": 3000, "thorough": 20000}
 MONITORS = False
-VARIANTS = ["plain", "annotated", "method", "nested", "deco1", "deco2", "closure-default", "closure-local-default", "class-attr-default", "captured-params", "captured-params-class"]
+VARIANTS = ["plain", "annotated", "method", "nested", "deco1", "deco2", "closure-default", "closure-local-default", "class-attr-default", "captured-params", "captured-params-class", "multi-return"]
 
 
 def shapes():
@@ -84,6 +84,15 @@ def render(shape, variant):
         # the defaults read a *local* of the defining function that another inner function captures and rebinds
         L += ["def outer():", "    cap = 'c:'", "    def g():", "        nonlocal cap", "        cap = cap + 'x'", "        return cap", "    g()",
               "    def f(%s):" % ", ".join(parts), "        return " + ret, "    g()", "    return f", "f = outer()"]
+    elif variant == "multi-return":
+        # which `return` is taken depends on the bound arguments: returns inside a loop, a loop's else clause, a while
+        # loop behind a continue, a bare return and falling off the end
+        L += ["def f(%s):" % ", ".join(parts), "    vals = list(" + ret + ")",
+              "    for v in vals:", "        if v == 0:", "            return ('zero-first', len(vals))", "        if v == 1:", "            break",
+              "    else:", "        if len(vals) > 3:", "            return ('many', len(vals))", "        if len(vals) == 0:", "            return",
+              "        vals.append('after-conditional-return')", "        return ('else-end', len(vals))",
+              "    while vals:", "        x = vals.pop()", "        if x == 'end' or x == 5:", "            continue",
+              "        if x == 2:", "            return ('two', len(vals))", "        vals.append('end')", "        return ('last', repr(x), len(vals))"]
     elif variant == "captured-params":
         # every parameter (also *va / **kw) is read - and the first one rebound - by an inner function
         first = names[0] if names else None
